@@ -9,7 +9,9 @@
 // Two container registers 0/1 of the configured type exist from `cfg` on.
 //
 // Answer of a query op:     <ret>
-// Answer of a mutating op:  <ret> ; a=<+leaf>,<-leaf>,<+inner>,<-inner> ; T0 <dump> ; T1 <dump>
+// Answer of a mutating op:  <ret> ; a=<+leaf>,<-leaf>,<+inner>,<-inner> ; T0 <dump> ; T1 <dump> ; A=<i0>,<i1>[ <i>:<+l>,<-l>,<+i>,<-i>]*
+//   A: the allocator instance (arena tag) each register's tree holds and, per instance used by the operation,
+//   the nodes obtained from it / returned through it (registers are constructed with instances 1 and 2)
 //   <dump> = s=<size>,<leaves>,<inner_nodes> <tree>     (stats_ as stored by the tree)
 //   <tree> = -                      no root
 //          | (e e e)                leaf, entries `k` (sets) or `k:v` (maps)
@@ -78,13 +80,22 @@ struct RCmp {
     bool operator()(ll a, ll b) const { return lessv(mode, a, b); }
 };
 
-// ---------------------------------------------------------------- counting allocator
+// ---------------------------------------------------------------- counting allocator with instance identity
+// Every allocator instance carries the tag of its arena: copies (and rebound copies) keep the tag and compare
+// equal, instances with different tags compare unequal.  Every live block remembers the arena that produced
+// it; returning it through an instance of another arena is an error ("every node is returned to the allocator
+// instance it was obtained from").
+struct BlockInfo { size_t bytes; const std::type_info* type; int arena; };
 struct Blocks {
-    std::map<const void*, std::pair<size_t, const std::type_info*> > live;
+    std::map<const void*, BlockInfo> live;
     std::vector<std::string> errors;
     static Blocks& get() { static Blocks b; return b; }
 };
-template <typename T> struct TypeCounter { static long allocs, frees; };
+struct ArenaCount { long allocs = 0, frees = 0; };
+template <typename T> struct TypeCounter {
+    static long allocs, frees;
+    static std::map<int, ArenaCount>& by_arena() { static std::map<int, ArenaCount> m; return m; }
+};
 template <typename T> long TypeCounter<T>::allocs = 0;
 template <typename T> long TypeCounter<T>::frees = 0;
 
@@ -97,8 +108,9 @@ struct CountAlloc {
     template <typename U> CountAlloc(const CountAlloc<U>& o) : id(o.id) {}
     T* allocate(size_t n) {
         T* p = static_cast<T*>(::operator new(n * sizeof(T)));
-        Blocks::get().live[p] = std::make_pair(n * sizeof(T), &typeid(T));
+        Blocks::get().live[p] = BlockInfo{n * sizeof(T), &typeid(T), id};
         ++TypeCounter<T>::allocs;
+        ++TypeCounter<T>::by_arena()[id].allocs;
         return p;
     }
     void deallocate(T* p, size_t n) {
@@ -108,14 +120,17 @@ struct CountAlloc {
             b.errors.push_back("deallocate of a block that is not live (double or foreign free)");
             return;   // do not hand it to operator delete: report instead of aborting
         }
-        if (it->second.first != n * sizeof(T) || *it->second.second != typeid(T))
+        if (it->second.bytes != n * sizeof(T) || *it->second.type != typeid(T))
             b.errors.push_back("deallocate with a different size/type than allocated");
+        if (it->second.arena != id)
+            b.errors.push_back("block from arena A" + std::to_string(it->second.arena) + " returned to arena A" + std::to_string(id));
         b.live.erase(it);
         ++TypeCounter<T>::frees;
+        ++TypeCounter<T>::by_arena()[id].frees;   // counted where it was returned
         ::operator delete(p);
     }
-    template <typename U> bool operator==(const CountAlloc<U>&) const { return true; }
-    template <typename U> bool operator!=(const CountAlloc<U>&) const { return false; }
+    template <typename U> bool operator==(const CountAlloc<U>& o) const { return id == o.id; }
+    template <typename U> bool operator!=(const CountAlloc<U>& o) const { return id != o.id; }
 };
 
 // ---------------------------------------------------------------- access through tlx's friend hook
@@ -131,6 +146,8 @@ public:
     template <typename BT> static long leaf_frees() { return TypeCounter<typename BT::LeafNode>::frees; }
     template <typename BT> static long inner_allocs() { return TypeCounter<typename BT::InnerNode>::allocs; }
     template <typename BT> static long inner_frees() { return TypeCounter<typename BT::InnerNode>::frees; }
+    template <typename BT> static std::map<int, ArenaCount>& leaf_arenas() { return TypeCounter<typename BT::LeafNode>::by_arena(); }
+    template <typename BT> static std::map<int, ArenaCount>& inner_arenas() { return TypeCounter<typename BT::InnerNode>::by_arena(); }
     template <typename BT> static size_t leaf_bytes() { return sizeof(typename BT::LeafNode); }
     template <typename BT> static size_t inner_bytes() { return sizeof(typename BT::InnerNode); }
 
@@ -456,14 +473,41 @@ struct Runner : IRunner {
         if (B.live.size() != want_blocks)
             v02("allocator holds " + std::to_string(B.live.size()) + " live node blocks, the trees have " + std::to_string(want_blocks) + " nodes");
         size_t bytes = 0;
-        for (auto& kv : B.live) bytes += kv.second.first;
+        std::map<int, size_t> live_by_arena, want_by_arena;
+        for (auto& kv : B.live) { bytes += kv.second.bytes; live_by_arena[kv.second.arena]++; }
         if (bytes != want_bytes) v02("live node bytes " + std::to_string(bytes) + " != " + std::to_string(want_bytes));
+        for (int r = 0; r < 2; ++r) {
+            NodeCount c = F::recount(F::impl(*t[r]));
+            want_by_arena[t[r]->get_allocator().id] += c.leaves + c.inner;
+        }
+        for (auto& kv : live_by_arena) if (kv.second != want_by_arena[kv.first])
+            v02("arena A" + std::to_string(kv.first) + " has " + std::to_string(kv.second) + " live node blocks, the trees holding it have " + std::to_string(want_by_arena[kv.first]) + " nodes");
+        for (auto& kv : want_by_arena) if (kv.second != live_by_arena[kv.first])
+            v02("the trees holding arena A" + std::to_string(kv.first) + " have " + std::to_string(kv.second) + " nodes, the arena has " + std::to_string(live_by_arena[kv.first]) + " live blocks");
         if (Lg.alive.size() != want_objs)
             v02("live key/value objects " + std::to_string(Lg.alive.size()) + " != slots of live nodes " + std::to_string(want_objs));
     }
 
-    struct AllocSnap { long la, lf, ia, ifr; };
-    static AllocSnap snap() { return AllocSnap{F::leaf_allocs<BT>(), F::leaf_frees<BT>(), F::inner_allocs<BT>(), F::inner_frees<BT>()}; }
+    struct AllocSnap { long la, lf, ia, ifr; std::map<int, ArenaCount> leaf, inner; };
+    static AllocSnap snap() {
+        return AllocSnap{F::leaf_allocs<BT>(), F::leaf_frees<BT>(), F::inner_allocs<BT>(), F::inner_frees<BT>(),
+                         F::template leaf_arenas<BT>(), F::template inner_arenas<BT>()};
+    }
+    // ` ; A=<arena of register 0>,<arena of register 1>` and ` <arena>:<+leaf>,<-leaf>,<+inner>,<-inner>` per arena used
+    std::string arena_part(const AllocSnap& s0, const AllocSnap& s1) {
+        std::ostringstream os;
+        os << " ; A=" << t[0]->get_allocator().id << ',' << t[1]->get_allocator().id;
+        std::set<int> ids;
+        for (auto& kv : s1.leaf) ids.insert(kv.first);
+        for (auto& kv : s1.inner) ids.insert(kv.first);
+        for (int a : ids) {
+            auto get = [a](const std::map<int, ArenaCount>& m) { auto it = m.find(a); return it == m.end() ? ArenaCount() : it->second; };
+            ArenaCount l0 = get(s0.leaf), l1 = get(s1.leaf), i0 = get(s0.inner), i1 = get(s1.inner);
+            long la = l1.allocs - l0.allocs, lf = l1.frees - l0.frees, ia = i1.allocs - i0.allocs, ifr = i1.frees - i0.frees;
+            if (la || lf || ia || ifr) os << ' ' << a << ':' << la << ',' << lf << ',' << ia << ',' << ifr;
+        }
+        return os.str();
+    }
 
     // ----- parsing
     static bool num(const std::string& s, ll& out) {
@@ -558,7 +602,7 @@ struct Runner : IRunner {
         std::ostringstream os;
         os << ret << " ; a=" << (s1.la - s0.la) << ',' << (s1.lf - s0.lf) << ',' << (s1.ia - s0.ia) << ',' << (s1.ifr - s0.ifr);
         std::string d = dump_all();   // oracle lines are printed before the answer; the flow accepts both orders
-        vh::answer(os.str() + d);
+        vh::answer(os.str() + d + arena_part(s0, s1));
         ledgers();
     }
 
@@ -685,6 +729,15 @@ struct Runner : IRunner {
             } else check_pos(op.c_str(), r, it, rit);
             if (op == "find" && rit != R.end() && it != c.end() && !equiv(r, ent(*it).first, k)) v01("find returns an entry with a non-equivalent key");
             if (op == "find" && (it == c.end()) != (cit == cc.end())) v01("find: end() mismatch between overloads");
+            if (op != "find") {
+                // the returned iterator must be usable: end() exactly when std's is, otherwise it refers to an
+                // entry whose key is equivalent to the key std's iterator refers to
+                if ((it == c.end()) != (rit == R.end()))
+                    v01(op + ": returns " + (it == c.end() ? "end()" : "an iterator other than end()") + ", std " +
+                        (rit == R.end() ? "end()" : "an entry"));
+                else if (it != c.end() && !equiv(r, ent(*it).first, rent(rit).first))
+                    v01(op + ": *it is " + sent(ent(*it)) + ", std refers to " + sent(rent(rit)));
+            }
             ret = op + " " + p;
             return true;
         }
@@ -697,6 +750,14 @@ struct Runner : IRunner {
             if (!(CIt(pr.first) == cpr.first) || !(CIt(pr.second) == cpr.second)) v01("equal_range: const and non-const overloads disagree");
             check_pos("equal_range.first", r, pr.first, rr.first);
             check_pos("equal_range.second", r, pr.second, rr.second);
+            if ((pr.first == c.end()) != (rr.first == R.end()) || (pr.second == c.end()) != (rr.second == R.end()))
+                v01("equal_range: end() mismatch with std");
+            else {
+                if (pr.first != c.end() && !equiv(r, ent(*pr.first).first, rent(rr.first).first))
+                    v01("equal_range.first: *it is " + sent(ent(*pr.first)) + ", std refers to " + sent(rent(rr.first)));
+                if (pr.second != c.end() && !equiv(r, ent(*pr.second).first, rent(rr.second).first))
+                    v01("equal_range.second: *it is " + sent(ent(*pr.second)) + ", std refers to " + sent(rent(rr.second)));
+            }
             ret = "eqr " + pos(r, pr.first) + " " + pos(r, pr.second);
             return true;
         }
